@@ -38,9 +38,36 @@ var commonAssumptions = []string{
 	"the worker is rebuilt from /repo's working tree with -tags verif; oracles and reference models live in packages that do not import coredhcp",
 }
 
+func (p *propSpec) with(r ...runSpec) *propSpec { p.runs = append(p.runs, r...); return p }
+
 func assume(extra ...string) []string { return append(append([]string{}, commonAssumptions...), extra...) }
 
+const allocRule = "each case fixes a pool (IPv4 sizes 1,2,3,63,64,65,127,128,129,256,4097 incl. ranges starting at 0.0.0.0 / ending at 255.255.255.255; IPv6 pool/allocation lengths on both sides of the 64-bit boundary, all-ones/all-zero bases) and a PRNG seed; 20-200 Allocate/Free operations are drawn from the PRNG and the model state (hint on free/taken/own block, outside below/above, other family, length-only, every mask class; Free of outstanding block, sub-prefix, never-allocated, already-freed, 1..N+2 blocks below/above the pool, far away) and every result is decided by a set-of-outstanding-blocks model with math/big address arithmetic; every history ends with a conservation audit (drain). "
+
+func allocSpec(nontrivial string, guards ...guard) *propSpec {
+	return &propSpec{
+		level:       "exploration",
+		rule:        allocRule + nontrivial,
+		assumptions: assume("Free of a super-prefix covering several blocks and wrong-family Free on the IPv6 allocator are outside the statement and are not generated"),
+		runs: []runSpec{
+			{engine: "alloc", loglevel: "fatal", qBatches: 16, qCases: 250, tBatches: 64, tCases: 1000},
+		},
+		guards: guards,
+	}
+}
+
+var allocConcRun = runSpec{engine: "allocconc", race: true, loglevel: "fatal", parallel: 4, qBatches: 8, qCases: 50, tBatches: 32, tCases: 200}
+
 var specs = map[string]*propSpec{
+	"C04": allocSpec("Non-trivial (C04) = history in which a block was re-allocated after a successful Free; distinct by (pool, seed).",
+		guard{"alloc.c04.realloc_after_free", 500, "re-allocation after Free must be exercised"},
+		guard{"allocconc.overlapping_pairs", 2000, "concurrent histories must really overlap"}, guard{"allocconc.porcupine_ok", 300, "linearizability verdicts"}).with(allocConcRun),
+	"C05": allocSpec("Non-trivial (C05) = history that reached a full pool (refusal observed or drained to capacity); distinct by (pool, seed).",
+		guard{"alloc.c05.refused_when_full", 100, "exhaustion must be reached"}, guard{"alloc.audit.drains", 500, "conservation audits"}),
+	"C06": allocSpec("Non-trivial (C06) = history containing a Free that must fail; distinct by (pool, seed).",
+		guard{"alloc.c06.must_fail_free", 1000, "failing-Free classes must be exercised"}, guard{"alloc.op.free.below-pool", 200, "below-pool class"}),
+	"C07": allocSpec("Non-trivial (C07) = history containing a hinted allocation on a free block; distinct by (pool, seed).",
+		guard{"alloc.c07.hinted_free_block", 1000, "hints naming a free block"}),
 	"C20": {
 		level: "exploration",
 		rule: "each evaluation draws p in 0..128 (boundary values over-weighted), a /p-aligned base and an address x>=base from bit-pattern classes, and n from 2^k-1/2^k/2^k+1/random; " +
